@@ -1,5 +1,6 @@
 import RlModel.Lemmas.Scan
 import RlModel.Lemmas.Heap
+import RlModel.Lemmas.OrderSem
 /-!
 # C12 — ORDER BY, LIMIT and OFFSET are honoured on every storage layout
 
@@ -551,5 +552,155 @@ def witnessTable : TableMeta := { primary := [0], sortedByPk := true }
 
 example : isOrderBy witnessTable [⟨0, false⟩] (.scan [0] (.const (.bool true))) = true
     ∧ ∀ rs ∈ witnessLayout, SortedBy (keyCmp [⟨0, false⟩]) rs.rows := by decide
+
+
+/-! ## The arms of `analyze_order`, regenerated from the source (`Gen/OrderArms.lean`)
+
+For every operator with an explicit arm the check requires a theorem `order_arm_<Op>`: if the
+children's outputs are sorted by the orders claimed for them, the operator's output (as the
+executor emits it, `Model/OrderSem.lean`) is sorted by the order the arm claims. A new or changed
+arm without such a theorem is an undischarged obligation. -/
+
+theorem sorted_of_eq_nil {ks : List OrdKey} (h : ks = []) (rows : List Row) : SortedBy (keyCmp ks) rows := by
+  subst h; exact sortedBy_nil_keys rows
+
+/-- arm `Scan`: the claim is the planner's scan contract, which the executor's scan of a keyed
+table satisfies (`scan_contract_sorted`: merge of key-sorted row-sets, also under a pushed range). -/
+theorem order_arm_Scan (t : TableMeta) (lay : List RowSet) (k : Nat) (hk : t.primary = [k])
+    (hs : ∀ rs ∈ lay, SortedBy (keyCmp [⟨k, false⟩]) rs.rows) (cols : List Nat) (f : Expr) (rows : List Row)
+    (h : tableScan t.primary lay cols (keyRangeOfFilter f) = .ok rows) :
+    SortedBy (keyCmp (Gen.claim_Scan t.sortedByPk t.primary cols)) rows := by
+  unfold Gen.claim_Scan
+  split
+  · split
+    next c hfind => exact scan_contract_sorted t lay k hk hs cols f rows c h hfind
+    next => exact sortedBy_nil_keys rows
+  · exact sortedBy_nil_keys rows
+
+theorem order_arm_Order (ks xc : List OrdKey) (rows : List Row) :
+    SortedBy (keyCmp (Gen.claim_Order ks xc)) (opOrder ks rows) :=
+  sortL_sorted _ (keyCmp_laws ks) rows
+
+theorem order_arm_TopN (n : Option Nat) (m : Nat) (ks xc : List OrdKey) (rows : List Row) :
+    SortedBy (keyCmp (Gen.claim_TopN ks xc)) (opTopN n m ks rows) :=
+  List.Pairwise.sublist (limit_subset n m _) (sortL_sorted _ (keyCmp_laws ks) rows)
+
+theorem order_arm_Proj (keys xc : List OrdKey) (rows : List Row) (h : SortedBy (keyCmp xc) rows) :
+    SortedBy (keyCmp (Gen.claim_Proj keys xc)) (opProj rows) := h
+
+theorem order_arm_Filter (keys xc : List OrdKey) (p : Row → Bool) (rows : List Row) (h : SortedBy (keyCmp xc) rows) :
+    SortedBy (keyCmp (Gen.claim_Filter keys xc)) (opFilter p rows) :=
+  List.Pairwise.filter _ h
+
+theorem order_arm_Window (keys xc : List OrdKey) (rows : List Row) (h : SortedBy (keyCmp xc) rows) :
+    SortedBy (keyCmp (Gen.claim_Window keys xc)) (opWindow rows) := h
+
+theorem order_arm_Limit (keys xc : List OrdKey) (n : Option Nat) (m : Nat) (rows : List Row) (h : SortedBy (keyCmp xc) rows) :
+    SortedBy (keyCmp (Gen.claim_Limit keys xc)) (opLimit n m rows) :=
+  List.Pairwise.sublist (limit_subset n m rows) h
+
+/-- arm `SortAgg`: one output row per run of equal group keys, in input order. -/
+theorem order_arm_SortAgg (keys xc : List OrdKey) (gk : List Nat) (rows : List Row) (h : SortedBy (keyCmp xc) rows) :
+    SortedBy (keyCmp (Gen.claim_SortAgg keys xc)) (opSortAgg gk rows) :=
+  List.Pairwise.sublist (runHeads_sublist _ _ rows) h
+
+/-- arm `MergeJoin` (`Inner | RightOuter => x(right)`, `LeftOuter => x(left)`, others nothing): sound
+for the left outer join as it stands; for inner / right outer joins it needs `hgroup`: rows of the
+right input with equal join keys are equivalent under the right input's claimed order (i.e. that
+order says no more than the join key) - see `mergejoin_order_claim_needs_group_eq`. -/
+theorem order_arm_MergeJoin (t : JT) (mg : Row → Row → Row) (lk rk : List Nat) (lks rks xl xr : List OrdKey)
+    (L R : List Row) (hL : SortedBy (keyCmp xl) L) (hR : SortedBy (keyCmp xr) R)
+    (hmgL : ∀ l r, SameKeyCols xl (mg l r) l) (hmgR : ∀ l r, SameKeyCols xr (mg l r) r)
+    (hgroup : ∀ g ∈ runs (sameKeys rk) R, ∀ a ∈ g, ∀ b ∈ g, keyCmp xr a b = .eq) :
+    SortedBy (keyCmp (Gen.claim_MergeJoin t lks rks xl xr)) (opMergeJoin t mg lk rk L R) := by
+  have inner_right : ∀ (pad : Bool),
+      SortedBy (keyCmp xr) ((runs (sameKeys rk) R).flatMap (mjBlock pad mg lk rk L)) := by
+    intro pad
+    have hblock : ∀ g, ∀ y ∈ mjBlock pad mg lk rk L g, ∃ r ∈ g, SameKeyCols xr y r := by
+      intro g y hy
+      unfold mjBlock at hy
+      split at hy
+      · split at hy
+        · exact ⟨y, hy, fun _ _ => rfl⟩
+        · cases hy
+      · obtain ⟨l, _, hy'⟩ := List.mem_flatMap.1 hy
+        obtain ⟨r, hr, rfl⟩ := List.mem_map.1 hy'
+        exact ⟨r, hr, hmgR l r⟩
+    have hRf : SortedBy (keyCmp xr) (runs (sameKeys rk) R).flatten := by rw [runs_flatten]; exact hR
+    unfold SortedBy at hRf ⊢
+    rw [List.pairwise_flatten] at hRf
+    rw [List.pairwise_flatMap]
+    refine ⟨?_, ?_⟩
+    · intro g hg
+      apply List.pairwise_of_forall_mem_list
+      intro y hy y' hy'
+      obtain ⟨r, hr, hyr⟩ := hblock g y hy
+      obtain ⟨r', hr', hyr'⟩ := hblock g y' hy'
+      refine le_of_sameKeyCols xr hyr hyr' ?_
+      unfold leBy; rw [hgroup g hg r hr r' hr']; simp
+    · exact hRf.2.imp (fun hgg y hy y' hy' => by
+        obtain ⟨r, hr, hyr⟩ := hblock _ y hy
+        obtain ⟨r', hr', hyr'⟩ := hblock _ y' hy'
+        exact le_of_sameKeyCols xr hyr hyr' (hgg r hr r' hr'))
+  cases t with
+  | leftOuter =>
+    simp only [Gen.claim_MergeJoin, opMergeJoin]
+    apply sorted_flatMap_blocks xl L _ hL
+    intro l _ y hy
+    split at hy
+    · simp at hy; subst hy; exact fun _ _ => rfl
+    · obtain ⟨r, _, rfl⟩ := List.mem_map.1 hy
+      exact hmgL l r
+  | inner =>
+    simp only [Gen.claim_MergeJoin, opMergeJoin]
+    exact inner_right false
+  | rightOuter =>
+    simp only [Gen.claim_MergeJoin, opMergeJoin]
+    exact inner_right true
+  | fullOuter => exact sorted_of_eq_nil rfl _
+  | semi => exact sorted_of_eq_nil rfl _
+  | anti => exact sorted_of_eq_nil rfl _
+
+example : opMergeJoin .leftOuter (mergeRow 4 [2, 3]) [0] [2]
+    [[.i32 1, .i32 10, .null, .null], [.i32 4, .i32 40, .null, .null]] [[.null, .null, .i32 1, .i32 7]]
+    = [[.i32 1, .i32 10, .i32 1, .i32 7], [.i32 4, .i32 40, .null, .null]] := by decide
+
+/-- The `hgroup` hypothesis is necessary: an inner merge join whose right input is ordered by
+(key, w DESC) and whose left input has a duplicate key emits w = 101, 100, 101, 100 - not in the
+order the arm claims (genuine defect `order:mergejoin-input-order-longer-than-join-key`,
+corpus/C12/mergejoin_longer_order.case). -/
+theorem mergejoin_order_claim_needs_group_eq :
+    let L : List Row := [[.i32 1, .i32 10, .null, .null], [.i32 1, .i32 11, .null, .null]]
+    let R : List Row := [[.null, .null, .i32 1, .i32 101], [.null, .null, .i32 1, .i32 100]]
+    let xr : List OrdKey := [⟨2, false⟩, ⟨3, true⟩]
+    SortedBy (keyCmp xr) R ∧ SortedBy (keyCmp [⟨0, false⟩]) L ∧
+      ¬ SortedBy (keyCmp (Gen.claim_MergeJoin .inner [] [] [⟨0, false⟩] xr)) (opMergeJoin .inner (mergeRow 4 [2, 3]) [0] [2] L R) := by
+  decide
+
+/-- The hash join (no arm: the planner claims no order for it) does emit its rows in the order of
+its RIGHT input for inner and right outer joins ... -/
+theorem hashjoin_probe_order (t : JT) (ht : t = .inner ∨ t = .rightOuter) (mg : Row → Row → Row) (lk rk : List Nat)
+    (xr : List OrdKey) (L R : List Row) (hR : SortedBy (keyCmp xr) R) (hmgR : ∀ l r, SameKeyCols xr (mg l r) r) :
+    SortedBy (keyCmp xr) (opHashJoin t mg lk rk L R) := by
+  have hno : ¬ (t = .leftOuter ∨ t = .fullOuter) := by rcases ht with rfl | rfl <;> decide
+  simp only [opHashJoin, hno, if_false, List.append_nil]
+  apply sorted_flatMap_blocks xr R _ hR
+  intro r _ y hy
+  split at hy
+  · split at hy
+    · simp at hy; subst hy; exact fun _ _ => rfl
+    · cases hy
+  · obtain ⟨l, _, rfl⟩ := List.mem_map.1 hy
+    exact hmgR l r
+
+/-- ... but NOT for left and full outer joins: the unmatched left rows are appended after the probe
+phase, with NULL in the right input's key. An arm `HashJoin(.., r) => x(r)` for every join type
+(seeded change s4c02) is refuted by this witness. -/
+theorem hashjoin_left_outer_order_unsound :
+    let L : List Row := [[.i32 1, .null], [.i32 5, .null]]
+    let R : List Row := [[.null, .i32 1], [.null, .i32 3]]
+    SortedBy (keyCmp [⟨1, false⟩]) R ∧
+      ¬ SortedBy (keyCmp [⟨1, false⟩]) (opHashJoin .leftOuter (mergeRow 2 [1]) [0] [1] L R) := by
+  decide
 
 end RlModel
